@@ -122,6 +122,9 @@ type FieldDef struct {
 	// Echo marks a harness field whose resolver returns a rendering of the
 	// arguments it received (so argument handling shows up in data).
 	Echo bool
+	// Variant, when set, maps the coerced arguments to a suffix of the data key
+	// the reference reads (node.F[name+suffix]): argument dependent values.
+	Variant func(args map[string]interface{}) string
 }
 
 func (f *FieldDef) Arg(n string) *ArgDef {
